@@ -2105,7 +2105,7 @@ pub fn gen_foreign_spec_ext(rng: &mut Prng, big: bool, wide_ok: bool) -> Foreign
         catalog_first: big || rng.chance(200),
         stale_validation: if validation && rng.chance(250) {
             // the names the history's own create_table calls will use
-            (1..=3).flat_map(|i| (1..=2).map(move |j| (format!("T{}", i), format!("C{}", j)))).collect()
+            ["T", "X"].iter().flat_map(|p| (1..=4).flat_map(move |i| (1..=2).map(move |j| (format!("{}{}", p, i), format!("C{}", j))))).collect()
         } else {
             Vec::new()
         },
@@ -2214,6 +2214,15 @@ pub fn generate(property: &str, profile: Profile, seed: u64, run: u64) -> Trace 
     }
     match profile {
         Profile::Corrupt => {
+            if g.rng.chance(300) {
+                // a template with several languages (list parsing is a reader of its own)
+                let op = SumOp::SetLangs(vec![1033, *g.rng.pick(&[1031u16, 2057, 9]), 1041]);
+                g.model.apply_summary(&op);
+                g.push(Op::Summary(op));
+                let op = SumOp::SetArch(g.rng.pick(&["x64", "Intel", ""]).to_string());
+                g.model.apply_summary(&op);
+                g.push(Op::Summary(op));
+            }
             // close, damage the image, then a session driven by the old model
             let n = match g.rng.below(10) {
                 0..=6 => 1,
@@ -2296,7 +2305,7 @@ pub fn gen_corruption(rng: &mut Prng) -> CorruptSpec {
         59..=70 => CorruptSpec::StreamLen(rng.next_u64() as u32, rng.below(5) as u8, rng.next_u64() as u32),
         71..=74 => CorruptSpec::PoolHeader(rng.below(4) as u8),
         75..=84 => CorruptSpec::PoolEntry(rng.next_u64() as u32, rng.below(10) as u8),
-        85..=92 => CorruptSpec::PropSet(rng.below(20) as u8, rng.next_u64() as u32),
+        85..=92 => CorruptSpec::PropSet(if rng.chance(120) { 19 } else { rng.below(20) as u8 }, rng.next_u64() as u32),
         93..=94 => CorruptSpec::DataHighBit(rng.next_u64() as u32),
         95..=96 => CorruptSpec::AddEntry(rng.below(8) as u8),
         97 => CorruptSpec::PoolGrow(*rng.pick(&[1u32, 70, 65_535, 70_000, 80_000])),
